@@ -59,15 +59,16 @@ type faultCase struct {
 	crash   *gen.CrashPoint
 	kline   int
 	cfg     Cfg
-	rerun   bool // after the fault: run again in place without cleanup and judge the state after that
-	visible bool // kill the group the instant the target task's final path becomes visible
-	xdev    bool // the absolute output area is on another file system
+	rerun   bool   // after the fault: run again in place without cleanup and judge the state after that
+	visible bool   // kill the group the instant the target task's final path becomes visible
+	xdev    bool   // the absolute output area is on another file system
+	cmdTail string // appended to the command pattern of process A (a script whose later lines fail after the tool has written everything)
 }
 
 func c01(args []string) {
 	c := chk.New("C01", "fault_enumeration", args)
 	c.Build(false)
-	c.Rule("directed topologies (single task; 2-output task feeding two consumers; 6 parallel tasks with fan-in; task with additional files; task whose declared output is a directory of three files; task with a streaming output beside two file outputs) x output-path shapes (plain, nested new directories, ../, absolute) x {command, Go function}; faults: every command failure mode on tasks in turn (exit non-zero before/mid/after writing, SIGKILL, SIGSEGV, shell killed, output omitted / misplaced), the process group killed by the command itself before / in the middle of / after writing, the group killed at hook crash points of every task (enumerated from the event log of a crash-free dry run), kills at logical instants (k-th line of the command trace); oracle after every terminated run: a file at a declared final path implies a successful end event of that task and the complete reference bytes; commands stat their own final path while running (must not exist); every other new file lies inside a _scipipe_tmp.* directory; commands whose output is written by a helper that outlives them (no failure at all: nothing may be visible before the helper is done); Go-function tasks also fail by panicking (after half / all of the output is written); six tasks failing at once with long error reports on a slowly read error stream (the failures overlap in time). distinct_nontrivial = distinct (topology, path shape, kind, fault, target) whose fault really fired (kill observed / failing command ran)")
+	c.Rule("directed topologies (single task; 2-output task feeding two consumers; 6 parallel tasks with fan-in; task with additional files; task whose declared output is a directory of three files; task with a streaming output beside two file outputs) x output-path shapes (plain, nested new directories, ../, absolute) x {command, Go function}; faults: every command failure mode on tasks in turn (exit non-zero before/mid/after writing, SIGKILL, SIGSEGV, shell killed, output omitted / misplaced), the process group killed by the command itself before / in the middle of / after writing, the group killed at hook crash points of every task (enumerated from the event log of a crash-free dry run), kills at logical instants (k-th line of the command trace); oracle after every terminated run: a file at a declared final path implies a successful end event of that task and the complete reference bytes; commands stat their own final path while running (must not exist); every other new file lies inside a _scipipe_tmp.* directory; commands whose output is written by a helper that outlives them (no failure at all: nothing may be visible before the helper is done); Go-function tasks also fail by panicking (after half / all of the output is written); commands that are scripts of several lines in which a line after the tool's successful end fails; six tasks failing at once with long error reports on a slowly read error stream (the failures overlap in time). distinct_nontrivial = distinct (topology, path shape, kind, fault, target) whose fault really fired (kill observed / failing command ran)")
 	c.Assume("working directory, ../ targets and absolute targets are on one file system", "destination directories of ../ and absolute outputs exist before the run (as the property allows)", "<path>.audit.json files and empty directories are not judged")
 	rng := c.Rand("c01")
 	var tcs []topoCase
@@ -249,6 +250,16 @@ func c01(args []string) {
 			cases = append(cases, &faultCase{tc: topoCase{k, []gen.PathShape{gen.ShapePlain, gen.ShapeNested}[r%2], false, 2}, label: "background-writer", opts: map[string]string{"bgwrite": "1", "pause": "1500", "size": "3000"}, cfg: Cfg{Buf: 128, Procs: 4}})
 		}
 	}
+	// the command is a script of several lines: the tool writes its outputs completely and exits 0, a later line fails
+	for _, k := range []string{"single", "twoout", "extra"} {
+		for r, sh := range []gen.PathShape{gen.ShapePlain, gen.ShapeNested, gen.ShapeParent, gen.ShapeAbs} {
+			if !c.Thorough() && (r+len(k))%2 == 1 {
+				continue
+			}
+			cases = append(cases, &faultCase{tc: topoCase{k, sh, false, 2}, label: "fail=script-later-line", key: "A",
+				cmdTail: []string{"\necho verifying\ntest -e /nonexistent/marker", "\nfalse", " ;\n( exit 7 )"}[r%3], cfg: Cfg{Buf: 128, Procs: 2}})
+		}
+	}
 	// failures that overlap in time: all six parallel tasks of A fail in the middle of writing, each with a 4 MB
 	// error report; error messages go to a stream of their own (the library's InitLogError) that is read slowly, so the
 	// report of the first failure is still being written when the others fail
@@ -270,6 +281,9 @@ func c01(args []string) {
 		}
 		s := gen.Topo(fc.tc.kind, fc.tc.shape, fc.tc.gof, root, fc.tc.n)
 		exp := evalRef(s, nil)
+		if fc.cmdTail != "" {
+			s.Proc("A").Cmd += fc.cmdTail // (the reference, taken before, describes the tool's part of the script)
+		}
 		bh := gen.TopoBehav(fc.tc.kind, exp)
 		probesFor(root, exp, bh)
 		if (fc.xdev || fc.label == "background-writer") && fc.key == "" {
@@ -352,8 +366,27 @@ func c01(args []string) {
 			}
 			ps = keep
 		}
+		if fc.cmdTail != "" {
+			// every command of A failed (its last line did): no output of A may be at its final path, although the
+			// tool itself reported success
+			for _, t := range exp.ByProc["A"] {
+				for port, p := range t.Outs {
+					if t.Streams[port] {
+						continue
+					}
+					if e, ok := snap[mon.RootRel(root, p)]; ok && (e.Mode == "f" || e.Mode == "d") {
+						ps = append(ps, mon.Problem{Sig: "final-path-without-successful-command", Msg: fmt.Sprintf("%s is at its final path although the command of %s (a script whose last line returns non-zero) failed", p, t.Key)})
+					}
+				}
+			}
+			if res.Exit == 0 {
+				ps = append(ps, mon.Problem{Sig: "final-path-without-successful-command", Msg: "the workflow exited 0 although every command of A failed"})
+			}
+		}
 		fired := false
 		switch {
+		case fc.cmdTail != "":
+			fired = len(ti.Starts) > 0
 		case fc.xdev:
 			fired = len(ti.Starts[fc.key]) > 0
 		case fc.crash != nil || fc.kline > 0 || fc.opts["killgroup"] != "" || fc.visible:
